@@ -447,25 +447,28 @@ def neutral_termini_side(ctx: Ctx, n):
                 ctx.violate(sig, f"complete peptide {[r0[0].resn for r0 in res]} fails under PARSE {opt[0]}: {msg}", {"pdb": text, "options": ["--ff=PARSE", opt[0]]})
 
 
-def attribute(text, res, ff):
-    """which terminal residue type makes a complete peptide fail: compare with peptides whose first /
-    last residue is of another type (cut residues off that end until the type changes)"""
-    inner = [[a.copy() for a in r] for r in res]
+def attribute(text, res, ff, extra_opts=()):
+    """which residue makes a complete peptide fail the total-charge check: run once more with the guard
+    switched off (from the harness) and look for the residue whose own charge is not integral"""
+    from pdb2pqr import main as pmain
 
-    def cut(side):
-        t = res[0][0].resn if side == "N" else res[-1][0].resn
-        cur = inner
-        while len(cur) > 2:
-            cur = cur[1:] if side == "N" else cur[:-1]
-            if (cur[0][0].resn if side == "N" else cur[-1][0].resn) != t:
-                return G.run_pipeline(G.to_pdb([cur]), [f"--ff={ff}"]).status
-        return None
-
-    s_n, s_c = cut("N"), cut("C")
-    if s_c == "ok" and s_n != "ok":
-        return f"C-terminal {res[-1][0].resn}"
-    if s_n == "ok" and s_c != "ok":
-        return f"N-terminal {res[0][0].resn}"
+    orig = pmain.noninteger_charge
+    pmain.noninteger_charge = lambda *a, **k: ""
+    try:
+        r = G.run_pipeline(text, [f"--ff={ff}", *extra_opts])
+    finally:
+        pmain.noninteger_charge = orig
+    if r.status == "ok":
+        bad = []
+        for x in r.biomolecule.residues:
+            q = x.charge
+            if abs(q - round(q)) > 1e-3:
+                pos = "N-terminal" if getattr(x, "is_n_term", 0) else "C-terminal" if getattr(x, "is_c_term", 0) else "internal"
+                bad.append(f"{pos} {x.name}")
+        if len(set(bad)) == 1:
+            return bad[0]
+        if bad:
+            return " + ".join(sorted(set(bad)))
     return f"{res[0][0].resn}...{res[-1][0].resn}"
 
 
